@@ -406,7 +406,8 @@ class Result:
         os.makedirs(os.path.join(VERIF, 'replays'), exist_ok=True)
         out_viol = []
         # broken proof / tie with no concrete input found => still a violation
-        if self.failures and not any(v['concrete'] for v in self.violations):
+        # (a listed known finding is not an explanation for a broken proof or tie)
+        if self.failures and not any(v['concrete'] and v['signature'] not in known_sigs for v in self.violations):
             self.violation('not-shown:' + self.failures[0]['what'],
                            {'property': self.prop_id, 'no_failing_input_found': True,
                             'broken': self.failures}, concrete=False)
